@@ -35,12 +35,12 @@ def lattice(K, seed=0):
     """K points, one in each of the K equiprobable bins of N(0,1) (so each has weight 1/K).  The position inside the bin is
     deliberately irregular (not the mid-point): a perfectly symmetric lattice makes bilinear forms such as <u, v> vanish
     exactly on a set of positive lattice weight, an artefact the Gaussian measure does not have."""
-    offs = [0.5 + 0.23 * (((i * 7 + 3 + seed) % 5) - 2) / 2.0 for i in range(K)]
+    offs = [0.5 + 0.37 * (((i * 7 + 3 + 5 * seed) % 11) - 5) / 5.0 for i in range(K)]
     return [NormalDist().inv_cdf((i + o) / K) for i, o in enumerate(offs)]
 
 
-DEFECTS = ["none", "scale1.01", "scale0.99", "sign", "entry1pct", "transpose", "missing-reduction", "opaque-at-order-2"]
-KINDS = ["scalar", "array", "matrixfn", "complex", "container", "broadcast"]
+DEFECTS = ["none", "scale1.01", "scale0.99", "sign", "entry1pct", "transpose", "missing-reduction", "opaque-at-order-2", "conj"]
+KINDS = ["scalar", "array", "matrixfn", "complex", "container", "broadcast", "linearfn"]
 A = onp.array([[1.3, -0.4], [0.8, 2.1]])
 
 
@@ -51,14 +51,17 @@ def build(kind, defect):
     np, ext, getval = L["np"], L["ext"], L["getval"]
     s = {"scale1.01": 1.01, "scale0.99": 0.99, "sign": -1.0}.get(defect, 1.0)
 
-    def entry(v):
+    def entry(v, g=None):
+        """single wrong entry: entry 0 is off by 1 % of the incoming (co)tangent's first component (an error relative to the
+        entry itself would be invisible wherever that entry happens to be ~0, which the checker's absolute tolerance allows)"""
         if defect != "entry1pct":
             return v
-        m = onp.ones(onp.shape(getval(v)))
+        m = onp.zeros(onp.shape(getval(v)))
+        g0 = np.reshape(g, (-1,))[0] if onp.ndim(getval(g)) else g
         if m.shape:
-            m.reshape(-1)[0] = 1.01
-            return v * m
-        return v * 1.01
+            m.reshape(-1)[0] = 1.0
+            return v * (1.0 + 0.01 * m) + 0.01 * m * g0
+        return v * 1.01 + 0.01 * g0
 
     opaque = defect == "opaque-at-order-2"
     shift = 1e-3 if defect == "off-by-const" else 0.0
@@ -76,8 +79,9 @@ def build(kind, defect):
                 return onp.cos(xv) * xv + onp.sin(xv)          # correct number, but invisible to a second differentiation
             return np.cos(x) * x + np.sin(x)
 
-        ext.defvjp(prim, lambda ans, x: lambda g: entry(s * g * d(x) + shift * g))
-        ext.defjvp(prim, lambda g, ans, x: entry(s * g * d(x) + shift * g))
+        cj = (lambda v: np.conj(v)) if defect == "conj" else (lambda v: v)      # a misplaced conjugate on a holomorphic rule
+        ext.defvjp(prim, lambda ans, x: lambda g: entry(s * g * cj(d(x)) + shift * g, g))
+        ext.defjvp(prim, lambda g, ans, x: entry(s * g * cj(d(x)) + shift * g, g))
         if kind == "scalar":
             return prim, 1.3
         if kind == "array":
@@ -85,6 +89,15 @@ def build(kind, defect):
         if kind == "complex":
             return prim, 0.6 + 0.9j
         return (lambda t: prim(t[0]) * np.sum(prim(t[1]))), (1.3, onp.array([0.4, 1.2]))
+    if kind == "linearfn":      # purely linear map: a transposed rule differs by an antisymmetric form only
+        @ext.primitive
+        def prim(x):
+            return onp.dot(A, x)
+
+        M = A.T if defect == "transpose" else A
+        ext.defvjp(prim, lambda ans, x: lambda g: s * np.dot(g, M))
+        ext.defjvp(prim, lambda g, ans, x: s * np.dot(M, g))
+        return prim, onp.array([0.4, 1.2])
     if kind == "matrixfn":
         @ext.primitive
         def prim(x):
@@ -92,8 +105,8 @@ def build(kind, defect):
 
         M = A.T if defect == "transpose" else A
         cosx = (lambda x: onp.cos(_raw(x))) if opaque else np.cos
-        ext.defvjp(prim, lambda ans, x: lambda g: entry(s * np.dot(g, M) * cosx(x) + shift * g))
-        ext.defjvp(prim, lambda g, ans, x: entry(s * np.dot(M, g * cosx(x)) + shift * g))
+        ext.defvjp(prim, lambda ans, x: lambda g: entry(s * np.dot(g, M) * cosx(x) + shift * g, g))
+        ext.defjvp(prim, lambda g, ans, x: entry(s * np.dot(M, g * cosx(x)) + shift * g, g))
         return prim, onp.array([0.4, 1.2])
     # broadcast: f(a, y) = a * sin(y) with scalar a; the rule w.r.t. a must reduce over y's axes
     @ext.primitive
@@ -105,9 +118,9 @@ def build(kind, defect):
             return lambda g: (g * np.sin(y))[0] * 1.0          # forgets to sum over the broadcast axis
         return lambda g: s * np.sum(g * np.sin(y)) + shift * np.sum(g)
 
-    ext.defvjp(prim, va, lambda ans, a, y: lambda g: entry(s * g * a * np.cos(y)))
+    ext.defvjp(prim, va, lambda ans, a, y: lambda g: entry(s * g * a * np.cos(y), g))
     ext.defjvp(prim, lambda g, ans, a, y: (s * g * np.sin(y) if defect != "missing-reduction" else g * np.sin(y) * onp.array([1.0, 0.0])),
-               lambda g, ans, a, y: entry(s * g * a * np.cos(y)))
+               lambda g, ans, a, y: entry(s * g * a * np.cos(y), g))
     yv = onp.array([0.4, 1.2])
     return (lambda a: prim(a, yv)), 0.9
 
@@ -124,7 +137,9 @@ def applicable(kind, defect):
     if defect == "entry1pct":
         return kind in ("array", "matrixfn", "container")
     if defect == "transpose":
-        return kind == "matrixfn"
+        return kind in ("matrixfn", "linearfn")
+    if defect == "conj":
+        return kind == "complex"
     if defect == "missing-reduction":
         return kind == "broadcast"
     if defect == "opaque-at-order-2":
@@ -135,14 +150,16 @@ def applicable(kind, defect):
 class Draws:
     """numpy.random.randn replacement: every scalar is a chooser decision over the lattice."""
 
-    def __init__(self, ch, vals):
-        self.ch, self.vals, self.n = ch, vals, 0
+    def __init__(self, ch, K, seed=0):
+        self.ch, self.K, self.seed, self.n = ch, K, seed, 0
 
     def randn(self, *shape):
         n = int(onp.prod(shape)) if shape else 1
         out = []
         for _ in range(n):
-            out.append(self.ch.choose("draw%d" % self.n, self.vals))
+            # every draw has its OWN irregular K-point lattice: two drawn vectors are never exactly equal or parallel, an
+            # event of measure zero under the Gaussian that a shared lattice would give positive weight
+            out.append(self.ch.choose("draw%d" % self.n, lattice(self.K, self.seed + 3 * self.n)))
             self.n += 1
         return onp.array(out).reshape(shape) if shape else out[0]
 
@@ -155,11 +172,11 @@ class Draws:
         return loc + scale * self.standard_normal(size)
 
 
-def run_check(kind, defect, mode, order, ch, vals):
+def run_check(kind, defect, mode, order, ch, K, seed=0):
     L = lib()
     import numpy.random as npr
     f, x = build(kind, defect)
-    d = Draws(ch, vals)
+    d = Draws(ch, K, seed)
     saved = (npr.randn, npr.standard_normal, npr.normal)
     npr.randn, npr.standard_normal, npr.normal = d.randn, d.standard_normal, d.normal
     try:
@@ -181,7 +198,7 @@ def run_check(kind, defect, mode, order, ch, vals):
 def depth_of(kind, defect, mode, order):
     """Number of scalar draws on the all-default path (lattice value 0 is never used: K is even)."""
     ch = Chooser([])
-    out, n = run_check(kind, "none", mode, order, ch, [0.37])
+    out, n = run_check(kind, "none", mode, order, ch, 2)
     return max(n, 1)
 
 
@@ -201,8 +218,7 @@ def lattice_factory(quick, seed):
         K = 2
         while (K + 2) ** D <= cap:
             K += 2
-        vals = lattice(K, seed)     # VERIF_SEED selects which fixed lattice
-        outcome, ndraws = run_check(kind, defect, mode, order, ch, vals)
+        outcome, ndraws = run_check(kind, defect, mode, order, ch, K, seed)     # VERIF_SEED selects which fixed lattices
         return dict(kind=kind, defect=defect, mode=mode, order=order, K=K, D=D, outcome=outcome, ndraws=ndraws)
 
     def judge(ch, o):
